@@ -79,6 +79,10 @@ type Exec struct {
 	vacSeq     int
 	loopEntry  map[int]*State
 	itTable    map[string]itInfo
+	havocRecs  map[int]havocRec
+	stableLocs map[string][]string
+	stablePrefixes []string
+	pinEpoch   int
 	macros     map[string]bool
 	loopEffects map[*ssa.BasicBlock]*effects
 	entryMods  *modSet
@@ -97,7 +101,7 @@ func newExec(w *World, fn *ssa.Function, con *Contract) *Exec {
 		globals: map[string]Val{}, fams: map[string]famSig{}, written: map[string]bool{}, closures: map[string]ClosureV{}, funcvals: map[string]FuncV{},
 		localAddrs: map[string]LocalAddr{}, strlits: map[string]string{}, callStats: map[string]map[string]int{}, usedContracts: map[string]bool{},
 		lets: map[string]TV{}, stepBudget: 4000000, pathLimit: 6000,
-		declOwner: map[string]string{}, decAtHead: map[*ssa.BasicBlock]string{}, itTable: map[string]itInfo{}, loopEntry: map[int]*State{}, famBirth: map[string]string{}, epochAlloc: map[int]string{0: "|$alloc@e0|"}, macros: map[string]bool{}, loopEffects: map[*ssa.BasicBlock]*effects{}, loopSets: map[*ssa.BasicBlock]map[*ssa.BasicBlock]bool{}, usedSpecFuncs: map[string]bool{}, namedPreds: map[string]string{}}
+		declOwner: map[string]string{}, decAtHead: map[*ssa.BasicBlock]string{}, havocRecs: map[int]havocRec{}, itTable: map[string]itInfo{}, loopEntry: map[int]*State{}, famBirth: map[string]string{}, epochAlloc: map[int]string{0: "|$alloc@e0|"}, macros: map[string]bool{}, loopEffects: map[*ssa.BasicBlock]*effects{}, loopSets: map[*ssa.BasicBlock]map[*ssa.BasicBlock]bool{}, usedSpecFuncs: map[string]bool{}, namedPreds: map[string]string{}}
 	e.decl("(declare-sort Ref 0)")
 	e.decl("(declare-const null Ref)")
 	return e
@@ -414,6 +418,9 @@ func (e *Exec) loadFacts(s *State, t types.Type, v Val) {
 }
 
 func (e *Exec) store(s *State, addr Val, v Val, t types.Type) {
+	if _, local := addr.(LocalAddr); !local {
+		e.escape(s, v) // written into the heap: reachable by others from now on
+	}
 	switch a := addr.(type) {
 	case LocalAddr:
 		if len(a.Path) == 0 {
@@ -744,6 +751,8 @@ func (e *Exec) blockFrom(s *State, b *ssa.BasicBlock, from int, depth int) {
 			key := e.keyTerm(mt, e.val(s, x.Key))
 			e.safety("nilmap", s, fmt.Sprintf("(not (= %s null))", ref))
 			e.checkRangeMutation(s, mt, ref, key, false)
+			e.escape(s, e.val(s, x.Value))
+			e.escape(s, e.val(s, x.Key))
 			e.mapStore(s, mt, ref, key, e.val(s, x.Value))
 		case *ssa.Call:
 			if e.call(s, x, x.Common(), x, func(s2 *State) { e.blockFrom(s2, b, idx+1, depth+1) }) {
